@@ -1,7 +1,7 @@
 (* C17 -- Pointers set for a test are restored after it; plugin actions nest properly.
-   Only statements; every proof is `exact <lemma>` into C17_Proofs.v / C17_Chain.v / C17_Run.v. *)
+   Only statements; every proof is `exact <lemma>` into C17_Proofs.v / C17_Links.v / C17_Chain.v / C17_Run.v / C17_Reinstall.v. *)
 From Coq Require Import NArith Arith Bool List.
-From CppUVerif Require Import gen.Gen_Common C17_Model C17_Proofs C17_Chain C17_Run.
+From CppUVerif Require Import gen.Gen_Common C17_Model C17_Proofs C17_Links C17_Chain C17_Run C17_Reinstall.
 Import ListNotations.
 
 (* every test (any statements in setup/body/teardown, any outcome) started with an empty table: after SetPointerPlugin's
@@ -161,6 +161,99 @@ Print Assumptions C17_runner_restores.
 Theorem C17_run_meets_spec : forall s, valid s = true -> spec s (run s) = true.
 Proof. exact run_meets_spec. Qed.
 Print Assumptions C17_run_meets_spec.
+
+(* ---- plugin objects that are removed and installed again *)
+(* installPlugin on an object that is outside the chain (removed by name or dropped by resetPlugins earlier): it is the new
+   head -- most recently installed first -- with the flags it carries; the rest of the chain does not move *)
+Theorem C17_reinstall_head : forall r i p, find_id i (r_out r) = Some p ->
+  r_chain (reg_act remove_by_name r (AReinstall i)) = p :: r_chain r /\ p_id p = i /\
+  r_out (reg_act remove_by_name r (AReinstall i)) = take_id i (r_out r).
+Proof. exact reinstall_head. Qed.
+Print Assumptions C17_reinstall_head.
+
+(* a plugin removed by name, wherever it stood (head, middle, tail), lives on outside the chain and may be installed again *)
+Theorem C17_removed_can_return : forall r n p, wf r -> In p (r_chain r) -> p_name p = n -> is_runner p = false ->
+  In p (r_out (reg_act without r (ARemove n))) /\ reinst_ok (reg_act without r (ARemove n)) (p_id p) = true.
+Proof. exact removed_can_return. Qed.
+Print Assumptions C17_removed_can_return.
+
+Theorem C17_reset_can_return : forall r p, wf r -> In p (r_chain r) -> is_runner p = false ->
+  reinst_ok (reg_act without r AReset) (p_id p) = true.
+Proof. exact reset_can_return. Qed.
+Print Assumptions C17_reset_can_return.
+
+(* an enabled recording plugin that is installed again sees the pre action of the next test first (and its post action last) *)
+Theorem C17_reinstall_logs_first : forall r i p, find_id i (r_out r) = Some p -> p_on p = true -> logs p = true ->
+  log_ids (r_chain (reg_act remove_by_name r (AReinstall i))) = i :: log_ids (r_chain r).
+Proof. exact reinstall_logs_first. Qed.
+Print Assumptions C17_reinstall_logs_first.
+
+(* the code's side: objects with a next_ link and firstPlugin_.  TestPlugin::addPlugin OVERWRITES the link of the object it is
+   given: for an object that is not in the chain -- whatever stale link it carries -- the chain afterwards is that object
+   followed by the chain as it was *)
+Theorem C17_install_overwrites_link : forall os f ids i, ~ In i ids -> path os f ids -> path (set_next os i f) (Some i) (i :: ids).
+Proof. exact path_install. Qed.
+Print Assumptions C17_install_overwrites_link.
+
+(* TestRegistry::removePluginByName over the links: the loops end, the chain read from firstPlugin_ afterwards is the chain
+   level's chain, names do not change, and no link is written except those of objects that stay in the chain: a removed
+   object KEEPS the link it had (stale, pointing into the chain) *)
+Theorem C17_remove_over_links : forall n c L fuel, path (l_objs L) (l_first L) (map p_id c) -> NoDup (map p_id c) ->
+  (forall p, In p c -> oname (l_objs L) (p_id p) = p_name p) -> length c < fuel ->
+  exists L', l_remove fuel n L = Some L' /\ path (l_objs L') (l_first L') (map p_id (remove_by_name n c)) /\
+    (forall j, oname (l_objs L') j = oname (l_objs L) j) /\
+    (forall j, ~ In j (map p_id (remove_by_name n c)) -> nxt (l_objs L') j = nxt (l_objs L) j).
+Proof. exact remove_links. Qed.
+Print Assumptions C17_remove_over_links.
+
+(* every history of installs of new objects, removals by name, enables, disables, resets and re-installs of objects that are
+   outside the chain at that moment (acts_ok), from any well-formed registry whose links are its chain: afterwards the links
+   are again the chain (read from firstPlugin_ through the next_ links: exactly the chain level's list, every object once) *)
+Theorem C17_links_follow_registry : forall l r T, wf r -> linked r -> acts_ok r l = true ->
+  linked (fst (tb_acts (r, T) l)) /\ wf (fst (tb_acts (r, T) l)).
+Proof. exact links_follow_registry. Qed.
+Print Assumptions C17_links_follow_registry.
+
+(* ... in particular after every prefix of every valid session (tests, runs, acting plugins, the runner included): the chain
+   holds every installed object once and reading it through the links gives exactly that chain *)
+Theorem C17_session_chain_is_links : forall s1 s2, valid (s1 ++ s2) = true ->
+  NoDup (map p_id (s_chain (exec_ops init_state s1))) /\ linked (s_reg (exec_ops init_state s1)) /\
+  read_chain (s_reg (exec_ops init_state s1)) = map p_id (s_chain (exec_ops init_state s1)).
+Proof. exact session_linked. Qed.
+Print Assumptions C17_session_chain_is_links.
+
+(* runAllPreTestAction / runAllPostTestAction over such links end; the pre actions reach the enabled plugins of the chain head
+   first, the post actions in the exact reverse; every enabled installed plugin exactly once, any other object never *)
+Theorem C17_link_walks : forall r, wf r -> linked r ->
+  l_pre (remove_fuel r) (l_objs (r_lnk r)) (on_of (r_chain r)) (l_first (r_lnk r)) = Some (pre_all (r_chain r)) /\
+  l_post (remove_fuel r) (l_objs (r_lnk r)) (on_of (r_chain r)) (l_first (r_lnk r)) = Some (rev (pre_all (r_chain r))) /\
+  (forall p, In p (r_chain r) -> p_on p = true -> count_occ Nat.eq_dec (pre_all (r_chain r)) (p_id p) = 1) /\
+  (forall i, (forall p, In p (r_chain r) -> p_on p = true -> p_id p <> i) -> count_occ Nat.eq_dec (pre_all (r_chain r)) i = 0).
+Proof. exact link_walks. Qed.
+Print Assumptions C17_link_walks.
+
+(* OUTSIDE the property (excluded by `valid`): installPlugin handed an object that IS in the chain.  The links become circular
+   (reading the chain, the pre and post actions, removal by name never end); no statement of the form "the links stay the
+   chain whatever object is installed" holds *)
+Theorem C17_install_in_chain_refuted : ~ install_any_object_stmt.
+Proof. exact install_any_object_refuted. Qed.
+Print Assumptions C17_install_in_chain_refuted.
+
+Theorem C17_install_always_wellformed_refuted : ~ install_always_wellformed_stmt.
+Proof. exact install_always_wellformed_refuted. Qed.
+Print Assumptions C17_install_always_wellformed_refuted.
+
+Theorem C17_circular_chain_never_ends : forall fuel on,
+  l_read fuel (l_objs (r_lnk ex_twice)) (l_first (r_lnk ex_twice)) = None /\
+  l_pre fuel (l_objs (r_lnk ex_twice)) on (l_first (r_lnk ex_twice)) = None.
+Proof. exact twice_never_ends. Qed.
+Print Assumptions C17_circular_chain_never_ends.
+
+(* a guard "an object that is the head or still carries a link is installed already" (what a red team put into installPlugin)
+   does not implement installation: a removed object keeps its stale link and would never come back *)
+Theorem C17_guard_on_stale_link_refuted : ~ guarded_install_links_in_stmt.
+Proof. exact guarded_install_refuted. Qed.
+Print Assumptions C17_guard_on_stale_link_refuted.
 
 (* --------------------------------------------------------------------------------------------------------------
    The pointer table of the model IS the source: CppUTestStore and SetPointerPlugin::postTestAction as tools/cxx2heap.py regenerates them from TestPlugin.cpp on every run (gen/Gen_HeapC17.v; the file-static pointerTableIndex and setlist[MAX_SET] are heap objects, a void** is the address of a cell of the pool block; rep in C17_HeapTie.v), run on a heap representing (pool, table): a store below the limit extends the table exactly as the model's Set statement does and writes nothing else; a store into a FULL table writes nothing at all and fails the test (HFail); the post action leaves the pool the model's restore computes -- each location back at the value it had before its first redirection -- and an empty table
